@@ -59,3 +59,12 @@ claim('C20',
       'and compared with the pressure-drop limit. Does not decide the partition/sum numerically nor convergence.',
       'Trusted: ast/CFG; three-valued evaluator of guard conditions (dsa/util.eval_test).',
       'DESIGN.md 4 C20')
+claim('C03',
+      'def-use / sibling-expression agreement, bundle-bounds predicate agreement across all z-evaluating methods, mask provenance, scale-tag and counter rules (ast, CFG)',
+      'Static conformance to the structural necessary conditions of C03 in DESIGN 4.3: the tallied step power is exactly the dict handed to the region; the three component '
+      'evaluations are identical and renormalised; every method that evaluates the profiles along z applies the same bundle-bounds predicate as the sweep and the '
+      'renormalisation sums only in-bundle steps against avg_power times their height; both scaling passes hit the same three targets and the returned total is '
+      'pcalc*renorm*pscalar; W/m<->W/cm scale tags are applied once in and once out; the sweep counter advances by one only on its own branch. Does not decide the '
+      'midpoint-sum/integral equality numerically.',
+      'Trusted: ast/CFG; the recognised source forms listed in dsa/rules/c03.py.',
+      'DESIGN.md 4 C03')
